@@ -41,7 +41,8 @@ func (p Proof) Marshal() string {
 func (p *Proof) Unmarshal(data []byte) error {
 	const delim = "\n"
 	s := string(data)
-	if !strings.HasSuffix(s, delim) {
+	// An empty proof marshals to the empty string: there is no last hash to terminate.
+	if len(s) > 0 && !strings.HasSuffix(s, delim) {
 		return errors.New("data should have trailing newline on last hash too")
 	}
 	lines := strings.Split(s, delim)
